@@ -401,7 +401,8 @@ def run_class_members(eng, lang, sym_draws=8, max_fields=1, max_funcs=2):
                 got = w.ref.snap(arg.t)
                 out.append(('C01', Ob(U + '|constructor-argument-fits-superclass-field', got == want or w.ref.sub(got, want),
                                       dict(case, field=fld.name, expected=show(want), got=show(got)))))
-    case['result'] = _re.sub(r' at 0x[0-9a-f]+', '', str(cls))[:120]
+    # (the order of the members follows the iteration order of a set of declarations: observe an order-free summary)
+    case['result'] = '%s %s : %s {%s}' % (kind, cls.name, sup_name, ', '.join(sorted(names)))
     return out, case
 
 
